@@ -29,6 +29,7 @@ def run(prog):
     obs.extend(check_import_resolved(prog))
     for name in ("import_resolved_str", "import_resolved_bin", "import_resolved"):
         obs.extend(check_load_once(prog, name))
+    obs.extend(check_str_utf8(prog))
     obs.extend(check_resolve_order(prog))
     obs.extend(check_canonical(prog))
     obs.extend(check_cli_paths(prog))
@@ -160,6 +161,32 @@ def check_load_once(prog, name):
         return [ok(RULE, key, site(f), "the file is read only when its cache entry is Vacant, and inserted only after a successful read")]
     return [bad(RULE, key, site(f), "load_file_contents is %s%s" % ("" if vac else "not restricted to the Vacant cache edge (file read more than once)",
                                                                    "" if after else "; the cache entry is inserted before the read succeeded"))]
+
+
+def check_str_utf8(prog):
+    """importstr of a cached file whose bytes are not UTF-8 is an error, not a default value (the file may have been loaded by importbin first)"""
+    f = prog.fn(EV + "State::import_resolved_str")
+    key = "import_resolved_str:utf8-error"
+    if f is None:
+        return [bad(RULE, key, "", "import_resolved_str not found")]
+    good = False
+    for b, t in f.calls():
+        c = t.get("fn") or ""
+        if c.endswith(("Option::<T>::ok_or_else", "Option::<T>::ok_or")) and not f.is_cleanup(b):
+            d = strip(f.desc_op(t["args"][0]))
+            if contains(d, lambda x: x[0] == "call" and str(x[1]).endswith("get_string")):
+                good = True
+    # or an explicit match whose None edge constructs the error
+    if not good:
+        for u, v, (d, val) in f._cond_edge_list():
+            sd = strip(d)
+            if sd[0] == "discr" and val == ("variant", "None") and contains(sd, lambda x: x[0] == "call" and str(x[1]).endswith("get_string")):
+                reach = {v} | f.reach_from(v)
+                if any(s2[0] == "a" and s2[2][0] == "agg" and str(s2[2][3]) == "ImportBadFileUtf8" for r in reach for s2 in f.stmts(r)):
+                    good = True
+    return [ok(RULE, key, site(f), "a cached file without a string view yields ImportBadFileUtf8") if good else
+            bad(RULE, key, site(f), "the result of FileData::get_string() is not turned into ImportBadFileUtf8 when it is None: importstr of a non-UTF-8 file "
+                "that was loaded by importbin first evaluates to a default value")]
 
 
 def check_resolve_order(prog):
